@@ -853,10 +853,11 @@ class BasicCriterion(Criterion):
         self.right = self.right.replace_table(current_table, new_table)
 
     def get_sql(self, ctx: SqlContext) -> str:
+        operand_ctx = ctx.copy(with_alias=False)
         sql = "{left}{comparator}{right}".format(
             comparator=self.comparator.value,
-            left=self.left.get_sql(ctx),
-            right=self.right.get_sql(ctx),
+            left=self.left.get_sql(operand_ctx),
+            right=self.right.get_sql(operand_ctx),
         )
         if ctx.with_alias:
             return format_alias_sql(sql, self.alias, ctx)
@@ -1043,8 +1044,8 @@ class NullCriterion(Criterion):
 
 class ComplexCriterion(BasicCriterion):
     def get_sql(self, ctx: SqlContext) -> str:
-        left_ctx = ctx.copy(subcriterion=self.needs_brackets(self.left))
-        right_ctx = ctx.copy(subcriterion=self.needs_brackets(self.right))
+        left_ctx = ctx.copy(subcriterion=self.needs_brackets(self.left), with_alias=False)
+        right_ctx = ctx.copy(subcriterion=self.needs_brackets(self.right), with_alias=False)
         sql = "{left} {comparator} {right}".format(
             comparator=self.comparator.value,
             left=self.left.get_sql(left_ctx),
@@ -1163,14 +1164,15 @@ class ArithmeticExpression(Term):
 
     def get_sql(self, ctx: SqlContext) -> str:
         left_op, right_op = [getattr(side, "operator", None) for side in [self.left, self.right]]
+        operand_ctx = ctx.copy(with_alias=False)
 
         arithmetic_sql = "{left}{operator}{right}".format(
             operator=self.operator.value,
             left=("({})" if self.left_needs_parens(self.operator, left_op) else "{}").format(
-                self.left.get_sql(ctx)
+                self.left.get_sql(operand_ctx)
             ),
             right=("({})" if self.right_needs_parens(self.operator, right_op) else "{}").format(
-                self.right.get_sql(ctx)
+                self.right.get_sql(operand_ctx)
             ),
         )
 
